@@ -336,9 +336,9 @@ func (st *Stream) abort(c codes.Code, msg, kind string) {
 }
 
 // Dead reports whether the RPC has terminated from the client's point of view.
-func (st *Stream) Dead() bool        { return st.finished || st.cliErr != nil }
-func (st *Stream) Finished() bool    { return st.finished }
-func (st *Stream) Result() error     { return st.result }
+func (st *Stream) Dead() bool          { return st.finished || st.cliErr != nil }
+func (st *Stream) Finished() bool      { return st.finished }
+func (st *Stream) Result() error       { return st.result }
 func (st *Stream) QueuedToServer() int { return len(st.c2s.q) }
 func (st *Stream) QueuedToClient() int { return len(st.s2c.q) }
 
